@@ -43,22 +43,25 @@ type entry struct {
 	kind string // register, subscribe, next-request, accepted, runtime-done-posted, upstream-begin, upstream-end, init-error, exit-error
 	id   int    // datapoint id for accepted; sequence for next-request
 	ids  []int  // datapoint ids carried by an upstream request
+	at   time.Time
 }
 
 type world struct {
-	mu        sync.Mutex
-	log       []entry
-	nextCh    chan string // harness releases /event/next with an event type
-	nextSeen  chan int
-	nexts     int
-	subHold   chan struct{}
-	upLatency func() time.Duration
-	upOutcome func() string
-	idRepeat  int // consecutive invocations sharing one request id (Lambda retries an asynchronous invocation under its id); 0 or 1 = none
+	mu          sync.Mutex
+	log         []entry
+	nextCh      chan string // harness releases /event/next with an event type
+	nextSeen    chan int
+	nexts       int
+	subHold     chan struct{}
+	upLatency   func() time.Duration
+	upOutcome   func() string
+	retryBudget time.Duration // the forwarder's max-request-elapsed-time when the case uses the "reset" outcome (else 0)
+	idRepeat    int           // consecutive invocations sharing one request id (Lambda retries an asynchronous invocation under its id); 0 or 1 = none
 }
 
 func (w *world) add(e entry) {
 	w.mu.Lock()
+	e.at = time.Now()
 	w.log = append(w.log, e)
 	w.mu.Unlock()
 }
@@ -88,7 +91,7 @@ func (w *world) lambdaAPI() http.Handler {
 		w.mu.Lock()
 		w.nexts++
 		n := w.nexts
-		w.log = append(w.log, entry{kind: "next-request", id: n})
+		w.log = append(w.log, entry{kind: "next-request", id: n, at: time.Now()})
 		w.mu.Unlock()
 		w.nextSeen <- n
 		select {
@@ -117,6 +120,19 @@ func (w *world) lambdaAPI() http.Handler {
 
 func (w *world) upstream() http.Handler {
 	return http.HandlerFunc(func(rw http.ResponseWriter, r *http.Request) {
+		outcome := w.upOutcome()
+		if outcome == "reset" {
+			// the connection is dropped before a byte of the request has been read: this attempt neither reached the upstream
+			// nor was it refused by it
+			if hj, ok := rw.(http.Hijacker); ok {
+				if c, _, err := hj.Hijack(); err == nil {
+					w.add(entry{kind: "upstream-reset"})
+					c.Close()
+					return
+				}
+			}
+			outcome = "5xx"
+		}
 		b, _ := io.ReadAll(r.Body)
 		if enc := r.Header.Get("Content-Encoding"); enc != "" {
 			if plain, err := fakes.Inflate(enc, b); err == nil {
@@ -136,7 +152,7 @@ func (w *world) upstream() http.Handler {
 		}
 		w.add(entry{kind: "upstream-begin", ids: ids})
 		time.Sleep(w.upLatency())
-		switch w.upOutcome() {
+		switch outcome {
 		case "5xx":
 			rw.WriteHeader(503)
 		case "close":
@@ -282,6 +298,7 @@ func checkOrder(t vt.TB, w *world, history []string) {
 	}
 	var acceptedSoFar []int
 	var mustBeFlushed []int // accepted before the latest flush trigger (subscribe or runtime-done)
+	var triggerAt time.Time
 	nextNo := 0
 	extra := 0
 	for i, e := range log {
@@ -290,11 +307,17 @@ func checkOrder(t vt.TB, w *world, history []string) {
 			acceptedSoFar = append(acceptedSoFar, e.id)
 		case "subscribe", "runtime-done-posted":
 			mustBeFlushed = append([]int(nil), acceptedSoFar...)
+			triggerAt = e.at
 		case "next-request":
 			nextNo++
 			done := finishedBefore(i)
 			for _, id := range mustBeFlushed {
 				if !done[id] {
+					if w.retryBudget > 0 && e.at.Sub(triggerAt) >= w.retryBudget-2*time.Second {
+						// attempts that never reached the upstream leave no trace of the datapoints there; the delivery may have
+						// been given up, which takes the retry budget less one back-off (at most 0.75 s) - not before
+						continue
+					}
 					vt.WriteCase(map[string]interface{}{"history": history, "log": describe(log)})
 					vt.Fail(t, "C20:next-before-flush-finished", "/event/next number %d was requested although datapoint %d, accepted before the preceding flush trigger, is in no upstream request that had finished; history %v; log %v", nextNo, id, history, describe(log))
 				}
@@ -368,6 +391,14 @@ func TestExtensionOrdering(t *testing.T) {
 			// retries off (the harness' default), or a retry budget: a delivery that fails throughout it is given up, and the next
 			// flush still has to make its own attempt
 			"max-request-elapsed-time": rapid.SampledFrom([]string{"-1ns", "-1ns", "300ms"}).Draw(t, "max-request-elapsed-time"),
+		}
+		// one case in twelve: a retry budget of 5 s and one upstream call (of the first four) dropped before it was read. The
+		// forwarder's retry, 0.25 - 0.75 s later, gets through; the flush is over only then
+		if rapid.IntRange(0, 11).Draw(t, "first-attempt-never-arrives") == 0 {
+			forwarderTuning["max-request-elapsed-time"] = "5s"
+			w.retryBudget = 5 * time.Second
+			k := rapid.IntRange(0, 3).Draw(t, "call-that-never-arrives")
+			outcomes[k], outcomes[(k+1)%len(outcomes)] = "reset", "2xx"
 		}
 		srv := newServer(up.URL, ingestPort, "forwarder")
 		srv.MaxParsers = rapid.SampledFrom([]int{1, 1, 3}).Draw(t, "max-parsers")
